@@ -138,6 +138,20 @@ _HARNESS = {}
 _CACHE = {}
 
 
+def untraced(fn):
+    """Run fn() outside CrossHair's tracer (fast).  ONLY for code whose inputs are all concrete, e.g.
+    building the mutable concrete pre-state of a history on every path."""
+    try:
+        from crosshair.tracers import NoTracing, is_tracing
+        tracing = is_tracing()
+    except Exception:  # noqa: BLE001
+        tracing = False
+    if tracing:
+        with NoTracing():
+            return fn()
+    return fn()
+
+
 def concrete(key, fn):
     """Build (once per process) a value from CONCRETE inputs only, outside CrossHair's tracer.
     Used for the fixed pre-state of a condition (an immutable container built from constants): it
